@@ -8,9 +8,9 @@ Require Import ZV.gen.KernelGen ZV.Kernel ZV.Bytes.
 Import ListNotations.
 Open Scope N_scope.
 Ltac Zify.zify_post_hook ::= Z.div_mod_to_equations.
-Ltac trefl := timeout 30 reflexivity.
-Ltac tlia := timeout 60 lia.
-Ltac tnia := timeout 60 nia.
+Ltac trefl := timeout 240 reflexivity.
+Ltac tlia := timeout 240 lia.
+Ltac tnia := timeout 240 nia.
 
 Lemma lor_1_even v : N.even v = true -> N.lor v 1 = v + 1.
 Proof.
